@@ -7,7 +7,8 @@ FILTER_TRUST = ['pgsem (harness/go/pgsem): executable stand-in for PostgreSQL ex
 PROPS['C20'] = dict(
     target='Props/C20',
     theorems=['C20_emit_sound', 'C20_emit_sound_partial', 'C20_address_accounts', 'C20_address_transactions', 'C20_list', 'C20_count',
-              'C20_refuted_not_over_absent', 'C20_refuted_bare_balance', 'C20_refuted_in_on_metadata', 'C20_refuted_empty_or', 'C20_pushdown_refuted'],
+              'C20_pushdown', 'C20_pushdown_covers', 'C20_in_on_metadata_rejected', 'C20_exists_on_balance_rejected', 'C20_log_type_in',
+              'C20_refuted_not_over_absent', 'C20_refuted_bare_balance', 'C20_refuted_empty_or'],
     ties=[dict(name='TIE-BD filters', vh='filters', model='filters', n=dict(quick=900, thorough=20000),
                args=dict(quick=['-depth', '4', '-perhist', '18'], thorough=['-depth', '6', '-perhist', '40']), kinds=['C20']),
           dict(name='TIE-BD filters-odd', vh='filters', model='filters', n=dict(quick=400, thorough=8000),
@@ -24,15 +25,17 @@ PROPS['C20'] = dict(
                 'ResolveFilter + Builder.Build (in-package hook, add-only). Model line: (res) flt_list = validation + SQL three-valued evaluation of flt_emit on the rows of the entities, '
                 'incl. the lateral push-down and SQLSTATE 21000; (ref) filter flt_sat — the Coq reference meaning; (where) printed flt_emit. All three must be textually equal. '
                 'Monitor (independent Go evaluator): listed = matching, count = len(listed), well-formed filters are accepted, ill-formed rejected, no panic. '
-                'The full statement is REFUTED by the faithful model in five ways (C20_refuted_*, C20_pushdown_refuted), each reproduced on the real code (known_findings.d/filter.json); '
-                'C20_emit_sound / C20_emit_sound_partial are the strongest true statements (no depth bound). Not proved: a positive push-down equivalence theorem (only its refutation).',
+                'The full statement is REFUTED by the faithful model in three unrepaired ways (C20_refuted_not_over_absent, C20_refuted_bare_balance, C20_refuted_empty_or), each reproduced on the real '
+                'code (known_findings.d/filter.json); four further defects found here were repaired in /repo (fixes/01..04: $in on log type, $exists on balance, $in on metadata, push-down '
+                'ignoring $in) and are now positive theorems (C20_log_type_in, C20_exists_on_balance_rejected, C20_in_on_metadata_rejected, C20_pushdown: with canPush the pre-filtered '
+                'dataset lists exactly the matching entities). C20_emit_sound / C20_emit_sound_partial are the strongest true statements (no depth bound).',
     trusted=FILTER_TRUST,
     technique='Coq proof by induction on the filter (SQL three-valued logic; jsonb containment / jsonpath address forms by induction on segments) + differential run of the extracted '
               'model against the real stack on pgsem + emitted-SQL text equality + independent reference evaluator as monitor',
     level_text='Unbounded theorems about Ledger/Filter.v: for every filter without a nullable leaf (resp. with nullable leaves not below a $not) the emitted condition, evaluated with SQL '
                'three-valued logic on the dataset row of an entity, is TRUE exactly when the entity satisfies the filter under its documented meaning (exact / partial / prefix addresses, '
-               '$in, metadata match / exists, balances, dates, reverted, reference, $and/$or/$not); list = filter sat, count = length. The full statement is refuted (5 witnesses) and '
-               'the refutations are reproduced on the real code. Tie: model = real stack on result sets, counts, error classes and WHERE text.',
+               '$in, metadata match / exists, balances, dates, reverted, reference, $and/$or/$not); list = filter sat, count = length. The lateral push-down is proved equivalent to the plain dataset (C20_pushdown). The full statement '
+               'is refuted in three unrepaired ways (witnesses reproduced on the real code). Tie: model = real stack on result sets, counts, error classes and WHERE text.',
     level_note='Trusted: Coq kernel; extraction; pgsem as stand-in for PostgreSQL; the OCaml printer of the condition AST; the Go harness. Point-in-time datasets themselves (which '
                'entities exist at t, metadata/volumes as of t) are taken from the unfiltered real read at the same t (they are the subject of C05/C17), not modelled here.',
 )
